@@ -3,19 +3,20 @@
    length), C08 (seek) and C09 (loops, hooks), on executions recorded by harness/drive_seq.
    The oracle is SmfRef (reference semantics of SMF) plus the controller semantics of Synth for
    the seek clause.  Per execution: Init, Song, configuration calls, Load, then Play/Seek records. *)
-EXTENDS SmfRef, Synth, Json, IOUtils, Sequences
+EXTENDS SmfRef, Synth, Seq, Json, IOUtils, Sequences
 
 T == ndJsonDeserialize(IOEnv.TRACE)
 MaxFails == 12
-VARIABLES l, song, cfg, pos, fails, cnt, exec
-vars == <<l, song, cfg, pos, fails, cnt, exec>>
+VARIABLES l, song, cfg, pos, fails, cnt, exec, drift
+vars == <<l, song, cfg, pos, fails, cnt, exec, drift>>
 
 Cfg0 == [loopEn |-> FALSE, loopN |-> -1, tnum |-> 1, tden |-> 1, enabled |-> <<>>, solo |-> -1, chdis |-> {},
          hooks |-> FALSE, loaded |-> FALSE, len |-> 0, ls |-> -1, le |-> -1]
 Pos0 == [t |-> 0, moved |-> FALSE]
 Cnt0 == [steps |-> 0, execs |-> 0, plays |-> 0, events |-> 0, sameTickGroups |-> 0, tempoSongs |-> 0, multiTrack |-> 0,
-         loopPlays |-> 0, jumps |-> 0, hookcalls |-> 0, seeks |-> 0, gated |-> 0, windows |-> 0, audio |-> 0, invalidLoops |-> 0]
-Init == l = 1 /\ song = [none |-> TRUE] /\ cfg = Cfg0 /\ pos = Pos0 /\ fails = <<>> /\ cnt = Cnt0 /\ exec = 0
+         loopPlays |-> 0, jumps |-> 0, hookcalls |-> 0, seeks |-> 0, gated |-> 0, windows |-> 0, audio |-> 0, invalidLoops |-> 0,
+         refined |-> 0, drifted |-> 0]
+Init == l = 1 /\ song = [none |-> TRUE] /\ cfg = Cfg0 /\ pos = Pos0 /\ fails = <<>> /\ cnt = Cnt0 /\ exec = 0 /\ drift = <<>>
 
 Tag(p, S, ev, d) == { [p |-> p, w |-> x, l |-> l, x |-> exec, e |-> ev.e, d |-> d] : x \in S }
 AddFails(S) == IF Len(fails) >= MaxFails \/ S = {} THEN fails ELSE fails \o SetToSeq(S)
@@ -103,8 +104,9 @@ PlayFullFails(ev, sg, c) ==
        Lbl(\A i \in DOMAIN Dk : \E j \in DOMAIN Rk : Rk[j] = Dk[i], "alien-event")
      ELSE
        (IF \A k \in keys : cntD(k) >= loK(k) /\ cntD(k) <= hiK(k) THEN {}
-        ELSE IF looping /\ li.hasE /\ \A k \in keys : (cntD(k) >= loK(k) /\ cntD(k) <= hiK(k)) \/
-                   (cntD(k) < loK(k) /\ \A i \in DOMAIN its : Rk[i] = k => cand(its[i]))
+        \* the shortfall is fully explained by items of the loopEnd marker's own row that follow the marker (finding F26)
+        ELSE IF looping /\ li.hasE /\ \A k \in keys : cntD(k) <= hiK(k) /\
+                   cntD(k) >= SumSeq([i \in DOMAIN its |-> IF Rk[i] = k /\ ~cand(its[i]) THEN lo(its[i]) ELSE 0])
              THEN {"delivery-count@loopend-row"}
         \* a tempo event among the items lost in the loopEnd row shifts every later time: compare the rest without times
         ELSE IF looping /\ li.hasE /\ (\E i \in DOMAIN its : cand(its[i]) /\ its[i].k = "tempo") /\
@@ -115,10 +117,10 @@ PlayFullFails(ev, sg, c) ==
                    IN c0 >= l0 /\ c0 <= h0
              THEN {"delivery-count@loopend-row"}
         ELSE {"delivery-count"}) \cup
-       Lbl((looping /\ li.st = li.et) \/ Cardinality(drops) = expJumps, "jump-count") \cup
+       Lbl((looping /\ li.st = li.et) \/ (wholeLoop /\ sg.len = 1000000) \/ Cardinality(drops) = expJumps, "jump-count") \cup
        Lbl(\A i \in drops : looping => (Near(times[i - 1], li.et) /\ Near(times[i], li.st)), "jump-target") \cup
        Lbl(\A i \in drops : wholeLoop => times[i] = 0, "jump-target0") \cup
-       Lbl(~exact \/ OrderOKCalls(calls), "ctl-before-noteon") \cup
+       Lbl(~exact \/ c.loopEn \/ OrderOKCalls(calls), "ctl-before-noteon") \cup
        Lbl(~exact \/ c.loopEn \/ FileOrderOK(D, its), "file-order") \cup
        Lbl(ev.atend = 1, "not-at-end") \cup
        Lbl(~c.hooks \/ ~c.loopEn \/ nLE = (IF looping /\ li.hasE THEN n + 1 ELSE n), "loopend-hook-count") \cup
@@ -192,7 +194,7 @@ StepSeek(ev) ==
       tgt == ev.tell
   IN /\ fails' = AddFails(Tag("C08", f, ev, ToString(<<"target", ev.us, "len", song.len, "tell", ev.tell, "was", pos.t>>)))
      /\ pos' = [t |-> tgt, moved |-> TRUE]
-     /\ UNCHANGED <<song, cfg, exec>>
+     /\ UNCHANGED <<song, cfg, exec, drift>>
      /\ cnt' = [cnt EXCEPT !.steps = @ + 1, !.seeks = @ + 1]
 \* playback after a seek: exactly the reference items after the target, at their song times
 PlayAfterSeekFails(ev, sg, c, from) ==
@@ -205,7 +207,7 @@ PlayAfterSeekFails(ev, sg, c, from) ==
      Lbl(\A i \in DOMAIN Dk : Count(Dk, LAMBDA y : y = Dk[i]) <= Count(post \o amb, LAMBDA it : KeyOfItem(it) = Dk[i]), "suffix-extra-or-mistimed") \cup
      Lbl(ev.atend = 1, "not-at-end")
 
-StepInit(ev) == /\ song' = [none |-> TRUE] /\ cfg' = Cfg0 /\ pos' = Pos0 /\ exec' = exec + 1 /\ fails' = fails
+StepInit(ev) == /\ song' = [none |-> TRUE] /\ cfg' = Cfg0 /\ pos' = Pos0 /\ exec' = exec + 1 /\ fails' = fails /\ drift' = drift
                 /\ cnt' = [cnt EXCEPT !.execs = @ + 1]
 \* everything derived from the song is computed once here (TLC does not memoise operator applications)
 MkSong(ev) ==
@@ -213,7 +215,7 @@ MkSong(ev) ==
       s1 == s0 @@ [tempi |-> TempoEvents(s0)]
       its == AllItems(s1)
   IN s1 @@ [its |-> its, len |-> (CHOOSE m \in { its[i].t : i \in DOMAIN its } : \A i \in DOMAIN its : its[i].t <= m) + 1000000]
-StepSong(ev) == /\ song' = MkSong(ev) /\ UNCHANGED <<cfg, pos, exec, fails>>
+StepSong(ev) == /\ song' = MkSong(ev) /\ UNCHANGED <<cfg, pos, exec, fails, drift>>
                 /\ cnt' = [cnt EXCEPT !.tempoSongs = @ + (IF \E k \in DOMAIN ev.tracks : \E i \in DOMAIN ev.tracks[k].ev : ev.tracks[k].ev[i][2].k = "tempo" THEN 1 ELSE 0),
                                       !.multiTrack = @ + (IF Len(ev.tracks) > 1 THEN 1 ELSE 0)]
 StepLoad(ev) ==
@@ -224,7 +226,7 @@ StepLoad(ev) ==
            Lbl(~ok \/ ev.tell = 0, "tell-after-load")
   IN /\ cfg' = [cfg EXCEPT !.loaded = ok, !.enabled = [i \in DOMAIN song.tracks |-> TRUE], !.solo = -1, !.chdis = {},
                            !.len = ev.len, !.ls = ev.ls, !.le = ev.le]
-     /\ pos' = Pos0 /\ UNCHANGED <<song, exec>>
+     /\ pos' = Pos0 /\ UNCHANGED <<song, exec, drift>>
      /\ fails' = AddFails(Tag("C07", f, ev, ""))
      /\ cnt' = [cnt EXCEPT !.steps = @ + 1]
 StepCfg(ev) ==
@@ -237,7 +239,7 @@ StepCfg(ev) ==
                                       ELSE [cfg EXCEPT !.enabled[ev.t + 1] = (ev.o = 1)]
               [] ev.e = "ChanEn" -> IF ev.r # 0 THEN cfg ELSE [cfg EXCEPT !.chdis = IF ev.en = 0 THEN @ \cup {ev.c} ELSE @ \ {ev.c}]
               [] OTHER -> cfg
-  /\ UNCHANGED <<song, pos, exec, fails>>
+  /\ UNCHANGED <<song, pos, exec, fails, drift>>
   /\ cnt' = [cnt EXCEPT !.steps = @ + 1]
 StepPlayTicks(ev) ==
   LET full == ~pos.moved /\ ev.trunc = 0
@@ -247,11 +249,22 @@ StepPlayTicks(ev) ==
       is9(x) == x \in {"delivery-count@loopend-row", "jump-count", "jump-target", "jump-target0", "loopend-hook-count", "loopstart-hook-count", "songend-hook",
                        "infinite-ended", "infinite-nojump"} \/ (cfg.loopEn /\ x = "delivery-count")
       D == EntriesOf(ev.calls, "e")
+      \* leg (C): the recorded delivery (events and loop hooks, in order, with their song times) is the model's delivery
+      ungated == cfg.solo = -1 /\ \A i \in DOMAIN cfg.enabled : cfg.enabled[i]
+      doRef == IOEnv.SEQ_REFINE = "1" /\ full /\ ev.atend = 1 /\ ev.steps = <<>> /\ ungated /\ (cfg.loopEn => cfg.loopN >= 0) /\ Len(D) <= 150
+      strip(x) == IF x[1] = "e" THEN <<"e", x[2], x[3], x[4], x[5], x[6]>> ELSE <<"h", x[2], x[3]>>
+      realLog == [i \in DOMAIN SelectSeq(AllLog(ev.calls), LAMBDA x : x[1] \in {"e", "h"}) |-> strip(SelectSeq(AllLog(ev.calls), LAMBDA x : x[1] \in {"e", "h"})[i])]
+      mrun == IF doRef THEN PlayModel(song, cfg.loopEn, cfg.loopN) ELSE [calls |-> <<>>, trunc |-> 1]
+      mlog0 == SelectSeq(AllLog(mrun.calls), LAMBDA x : x[1] = "e" \/ cfg.hooks)
+      modelLog == [i \in DOMAIN mlog0 |-> strip(mlog0[i])]
+      dr == doRef /\ mrun.trunc = 0 /\ modelLog # realLog
       det == ToString(<<"loop", li, "n", cfg.loopN, "hooks", EntriesOf(ev.calls, "h"), "nLS", Count(EntriesOf(ev.calls, "h"), LAMBDA x : x[3] = 1), "times", [i \in DOMAIN D |-> D[i][2]]>>)
       f8 == IF pos.moved /\ ~cfg.loopEn /\ ev.trunc = 0 /\ ev.steps = <<>> THEN PlayAfterSeekFails(ev, song, cfg, pos.t) ELSE {}
   IN /\ fails' = AddFails(Tag("C07", { x \in f7 \cup fw : ~is9(x) }, ev, "") \cup Tag("C09", { x \in f7 : is9(x) }, ev, det)
                           \cup Tag("C08", f8, ev, ToString(<<"from", pos.t>>)))
      /\ pos' = [pos EXCEPT !.moved = TRUE, !.t = IF ev.calls = <<>> THEN @ ELSE ev.calls[Len(ev.calls)][2]]
+     /\ drift' = IF dr /\ Len(drift) < 4 THEN Append(drift, [l |-> l, x |-> exec, e |-> "PlayTicks",
+                      d |-> ToString(<<"first-difference-at", CHOOSE i \in 1..(Len(modelLog) + 1) : (i > Len(modelLog) \/ i > Len(realLog) \/ modelLog[i] # realLog[i]) /\ \A j \in 1..(i - 1) : j <= Len(realLog) /\ modelLog[j] = realLog[j]>>)]) ELSE drift
      /\ UNCHANGED <<song, cfg, exec>>
      /\ cnt' = [cnt EXCEPT !.steps = @ + 1, !.plays = @ + 1, !.events = @ + Len(D),
                            !.sameTickGroups = @ + Cardinality({ i \in 2..Len(D) : D[i][2] = D[i - 1][2] /\ D[i][5] = D[i - 1][5] }),
@@ -260,8 +273,9 @@ StepPlayTicks(ev) ==
                            !.jumps = @ + Cardinality({ i \in 2..Len(D) : D[i][2] < D[i - 1][2] }),
                            !.hookcalls = @ + Len(EntriesOf(ev.calls, "h")),
                            !.gated = @ + (IF cfg.solo # -1 \/ \E i \in DOMAIN cfg.enabled : ~cfg.enabled[i] THEN 1 ELSE 0),
-                           !.windows = @ + (IF "steps" \in DOMAIN ev /\ ev.steps # <<>> THEN 1 ELSE 0)]
-StepOther(ev) == UNCHANGED <<song, cfg, pos, exec, fails>> /\ cnt' = [cnt EXCEPT !.steps = @ + 1]
+                           !.windows = @ + (IF "steps" \in DOMAIN ev /\ ev.steps # <<>> THEN 1 ELSE 0),
+                           !.refined = @ + (IF doRef /\ mrun.trunc = 0 THEN 1 ELSE 0), !.drifted = @ + (IF dr THEN 1 ELSE 0)]
+StepOther(ev) == UNCHANGED <<song, cfg, pos, exec, fails, drift>> /\ cnt' = [cnt EXCEPT !.steps = @ + 1]
 
 Next ==
   \/ /\ l <= Len(T) /\ l' = l + 1
@@ -272,10 +286,10 @@ Next ==
           [] ev.e \in {"SetLoop", "SetLoopCount", "SetTempo", "SetHooks", "TrackOpt", "ChanEn"} -> StepCfg(ev)
           [] ev.e = "PlayTicks" -> StepPlayTicks(ev)
           [] ev.e = "Seek" -> StepSeek(ev)
-          [] ev.e = "End" -> UNCHANGED <<song, cfg, pos, exec, fails, cnt>>
+          [] ev.e = "End" -> UNCHANGED <<song, cfg, pos, exec, fails, cnt, drift>>
           [] OTHER -> StepOther(ev)
   \/ /\ l = Len(T) + 1 /\ l' = l + 1
-     /\ PrintT(<<"RESULT", ToJson([n |-> Len(T), fails |-> fails, cnt |-> cnt, drift |-> <<>>])>>)
-     /\ UNCHANGED <<song, cfg, pos, exec, fails, cnt>>
+     /\ PrintT(<<"RESULT", ToJson([n |-> Len(T), fails |-> fails, cnt |-> cnt, drift |-> drift])>>)
+     /\ UNCHANGED <<song, cfg, pos, exec, fails, cnt, drift>>
 Spec == Init /\ [][Next]_vars
 =============================================================================
